@@ -234,6 +234,15 @@ def run(ctx):
         if ok:
             rds = set(bi for bi, t in calls if t['fd'].endswith('Read::read_exact') and T.op_term(fn, t['args'][1]) == term)
             oblig.must_pass_through(ctx, 'C13-D4', fn, lambda bi, b, _u=ub: bi == _u, lambda bi, b, _r=rds: bi in _r, 'Hasher::update(%s)' % term[:40], 'read_exact into the same buffer')
+    # D6: each range is read from its own start: no path from the loop head to a read of that iteration skips the seek
+    heads = [bi for bi, t in calls if t['fd'].endswith('Iterator::next') and T.call_term(fn, bi) == 'Iterator::next(ranges)']
+    seeks = set(bi for bi, t in calls if t['fd'].endswith('Seek::seek') and re.search(r'Start\(RangeInclusive::start\(Iterator::next\(ranges\)\.Some\.0\)\)', T.call_term(fn, bi)))
+    rdx = [bi for bi, t in calls if t['fd'].endswith('Read::read_exact')]
+    ctx.floor('range loops in the hashing function', len(heads), 2, rule='C13-D6')
+    for nb in heads:
+        r = fn.reachable(fn.B[nb]['t']['t'], avoid=seeks | {nb})
+        bad = [b for b in rdx if b in r]
+        ctx.ob('C13-D6', F, 'read of a range', 'preceded on every path of the iteration by seek(Start(range.start))', not bad and bool(seeks), detail='reads reachable without the seek: %s' % bad, site=loc(fn.B[nb]['t'].get('span')))
     # read_exact errors leave with Err
     for bi, t in calls:
         if t['fd'].endswith('Read::read_exact') or t['fd'].endswith('Seek::seek'):
